@@ -193,6 +193,7 @@ impl Ctx {
                         // shrinking is bounded by wall time as well as by iterations: past the budget every further
                         // candidate counts as passing, so proptest settles on the smallest failure found so far
                         if let Some(t) = shrink_started.get() { if t.elapsed().as_secs() >= SHRINK_SECS { return Ok(()); } }
+                        trace_set(w, sub, &c);
                         let r = guard(|| check(&c)).and_then(|r| r);
                         match r {
                             Ok(i) => { if !failed.get() {
@@ -243,6 +244,7 @@ impl Ctx {
                         if first_fail.lock().unwrap().is_some() { break; }
                         for i in lo..(lo + block).min(total) {
                             let c = make(i);
+                            trace_set(w, sub, &c);
                             evals += 1;
                             match guard(|| check(&c)).and_then(|r| r) {
                                 Ok(inf) => { *classes.entry(inf.class.clone()).or_default() += 1; if inf.nt { nt += 1; fps.push((i as u64).wrapping_mul(0x9E3779B97F4A7C15));
@@ -326,6 +328,46 @@ impl<'a> Drop for Timer<'a> { fn drop(&mut self) { let mut st = self.ctx.stats.l
 
 /// Wall-clock budget for shrinking one failure.
 pub const SHRINK_SECS: u64 = 20;
+
+// ---------------------------------------------------------------- crash trace
+// When enabled (KVERIF_TRACE_FILE), every worker writes the case it is about to execute into its slot of a
+// shared file mapping. If the process is killed (abort, stack overflow, OOM kill) the file survives and
+// `kverif <ID> --triage FILE` re-runs each slot in a child process to find the case that kills it.
+pub const TRACE_SLOT: usize = 1 << 16;
+pub const TRACE_SLOTS: usize = 64;
+static TRACE_PTR: std::sync::atomic::AtomicUsize = std::sync::atomic::AtomicUsize::new(0);
+pub fn trace_enable(path: &str) {
+    use std::os::unix::io::AsRawFd;
+    let Ok(f) = std::fs::OpenOptions::new().read(true).write(true).create(true).truncate(true).open(path) else { return };
+    if f.set_len((TRACE_SLOT * TRACE_SLOTS) as u64).is_err() { return; }
+    let p = unsafe { libc::mmap(std::ptr::null_mut(), TRACE_SLOT * TRACE_SLOTS, libc::PROT_READ | libc::PROT_WRITE, libc::MAP_SHARED, f.as_raw_fd(), 0) };
+    if p != libc::MAP_FAILED { TRACE_PTR.store(p as usize, Ordering::SeqCst); }
+}
+fn trace_set<C: Serialize>(worker: usize, sub: &str, case: &C) {
+    let base = TRACE_PTR.load(Ordering::Relaxed); if base == 0 { return; }
+    let Ok(mut body) = serde_json::to_vec(&json!({"sub": sub, "case": case})) else { return };
+    body.truncate(TRACE_SLOT - 8);
+    let slot = (base + (worker % TRACE_SLOTS) * TRACE_SLOT) as *mut u8;
+    unsafe { std::ptr::write_volatile(slot as *mut u32, 0); std::ptr::copy_nonoverlapping(body.as_ptr(), slot.add(8), body.len()); std::ptr::write_volatile(slot as *mut u32, body.len() as u32); }
+}
+/// Re-run every traced case in a child process; the first one that ends abnormally is saved as a replay.
+pub fn triage(id: &str, root: &std::path::Path, file: &str) -> i32 {
+    let Ok(data) = std::fs::read(file) else { eprintln!("triage: cannot read {}", file); return 2 };
+    let exe = std::env::current_exe().unwrap();
+    for s in 0..TRACE_SLOTS {
+        let off = s * TRACE_SLOT; if off + 8 > data.len() { break; }
+        let len = u32::from_le_bytes(data[off..off + 4].try_into().unwrap()) as usize; if len == 0 || off + 8 + len > data.len() { continue; }
+        let Ok(v) = serde_json::from_slice::<Value>(&data[off + 8..off + 8 + len]) else { continue };
+        let body = json!({"property": id, "sub": v["sub"], "case": v["case"], "message": "the process ended abnormally (abort / signal) while executing this case"});
+        let dir = root.join("replays").join(id); let _ = std::fs::create_dir_all(&dir);
+        let p = dir.join(format!("{}-abort-{:016x}.json", v["sub"].as_str().unwrap_or("x"), fnv64(&data[off + 8..off + 8 + len])));
+        let _ = std::fs::write(&p, serde_json::to_string_pretty(&body).unwrap());
+        let st = std::process::Command::new(&exe).arg(id).arg("--replay").arg(&p).env_remove("KVERIF_TRACE_FILE").stdout(std::process::Stdio::null()).stderr(std::process::Stdio::null()).status();
+        use std::os::unix::process::ExitStatusExt;
+        match st { Ok(st) if st.signal().is_some() || st.code().map(|c| c > 2).unwrap_or(true) => { println!("[{}] the process is killed by this case (status {:?}, signal {:?})", id, st.code(), st.signal()); println!("VIOLATION property={} replay={}", id, p.display()); return 1; } _ => { let _ = std::fs::remove_file(&p); } }
+    }
+    eprintln!("triage: none of the traced cases reproduces the abnormal end"); 2
+}
 
 pub static RULES: Mutex<BTreeMap<String, String>> = Mutex::new(BTreeMap::new());
 pub fn set_rule(id: &str, rule: &str) { RULES.lock().unwrap().insert(id.into(), rule.into()); }
